@@ -11,6 +11,7 @@ import (
 	"fmt"
 	"io"
 	"sync"
+	"sync/atomic"
 	"testing"
 
 	"pgregory.net/rapid"
@@ -43,7 +44,7 @@ type Case struct {
 }
 
 var opKinds = map[string][]string{
-	"image":         {"Hash", "Bytes", "Open", "Signatures", "Verify", "Verify", "VerifyOutsider", "VerifyTwin", "NeighbourFault"},
+	"image":         {"Hash", "Bytes", "Open", "Signatures", "Verify", "Verify", "VerifyOutsider", "VerifyTwin", "NeighbourFault", "OwnReaderFault"},
 	"database":      {"Bytes", "Marshal", "SigDataExists", "BytesExists", "Exists", "ExistsSpread", "ExistsAbsent", "ListBytes"},
 	"signed_update": {"Marshal", "Bytes"},
 	"descriptor":    {"Marshal", "Verify", "VerifyOutsider", "VerifyTwin"},
@@ -129,7 +130,7 @@ func digest(b []byte) string { d := sha256.Sum256(b); return fmt.Sprintf("%x", d
 // runner executes one operation on the shared object and returns a digest of the result.
 type runner func(op Op) string
 
-func imageRunner(bin *authenticode.PECOFFBinary, signers []int, img []byte) runner {
+func imageRunner(bin *authenticode.PECOFFBinary, signers []int, img []byte, own *failingAfter, concurrent *atomic.Bool) runner {
 	ids := gen.FixedIdents()
 	return func(op Op) string {
 		switch op.Kind {
@@ -150,6 +151,21 @@ func imageRunner(bin *authenticode.PECOFFBinary, signers []int, img []byte) runn
 		case "Verify":
 			ok, err := bin.Verify(ids[signers[op.Arg%len(signers)]].Cert)
 			return fmt.Sprint(ok, err)
+		case "OwnReaderFault":
+			// the reader behind the shared object fails for the duration of one Hash call (sequential phase only: while
+			// other goroutines are calling, their calls would legitimately fail too). The failed call must leave the
+			// object as it was: everything after it is compared with a fresh twin as before.
+			if own == nil || concurrent.Load() {
+				return "-"
+			}
+			own.mu.Lock()
+			own.failAt = own.calls + 1 + op.Arg%8
+			own.mu.Unlock()
+			bin.Hash(crypto.SHA256)
+			own.mu.Lock()
+			own.failAt = 0
+			own.mu.Unlock()
+			return "-"
 		case "NeighbourFault":
 			// not a call on the object at all: another object (parsed from the same bytes) whose reader starts failing
 			// after Parse is hashed and verified; that failure is the neighbour's own business
@@ -281,17 +297,19 @@ func checkCase(c Case) error {
 	}
 	id := gen.FixedIdents()[c.Ident%4]
 	// build the shared object and an independent twin for the baseline
+	var concurrentPhase atomic.Bool
 	build := func() (runner, func() string, error) {
 		switch c.Object {
 		case "image":
 			if len(c.Signers) == 0 {
 				return nil, nil, fmt.Errorf("bad case: no signers")
 			}
-			bin, err := authenticode.Parse(bytes.NewReader(c.Img))
+			own := &failingAfter{data: c.Img}
+			bin, err := authenticode.Parse(own)
 			if err != nil {
 				return nil, nil, fmt.Errorf("bad case: %v", err)
 			}
-			return imageRunner(bin, c.Signers, c.Img), func() string { return digest(bin.Bytes()) + digest(bin.Hash(crypto.SHA256)) }, nil
+			return imageRunner(bin, c.Signers, c.Img, own, &concurrentPhase), func() string { return digest(bin.Bytes()) + digest(bin.Hash(crypto.SHA256)) }, nil
 		case "database":
 			db, err := signature.ReadSignatureDatabase(bytes.NewReader(c.DB))
 			if err != nil {
@@ -453,6 +471,7 @@ func checkCase(c Case) error {
 	}
 	// concurrent calls on the shared object
 	if len(c.Lists) >= 2 {
+		concurrentPhase.Store(true)
 		var wg sync.WaitGroup
 		start := make(chan struct{})
 		errs := make(chan error, len(c.Lists))
